@@ -23,6 +23,12 @@ partial def loop (h : IO.FS.Stream) (s : St) : IO Unit := do
       IO.println "ok"
       loop h { w := newIface s.w i.toNat! (if bases.isEmpty then [0] else bases) attrs (pairs tg) invs,
                names := dedupS (s.names ++ attrs.map (·.1)) }
+  | ["twin", i, _, at_, tg, iv] =>         -- a distinct interface object (equal name and module on the real side): a fresh node
+      let attrs := pairs at_
+      let invs := (pairs iv).map fun p => (p.1.toNat!, p.2 == 1)
+      IO.println "ok"
+      loop h { w := newIface s.w i.toNat! [0] attrs (pairs tg) invs,
+               names := dedupS (s.names ++ attrs.map (·.1)) }
   | ["set", i, bs] =>
       let bases := (lst bs).map String.toNat!
       IO.println "ok"; loop h { s with w := setBases s.w i.toNat! (if bases.isEmpty then [0] else bases) }
